@@ -18,11 +18,16 @@ def sh(cmd, cwd=None, timeout=3600):
     return p.returncode, p.stdout
 
 
+def in_bindings(sd):
+    head = open(os.path.join(sd, "demo.rs")).read(300)
+    return os.path.basename(sd).startswith("C20") or "crate: mla-bindings-c" in head
+
+
 def demo_install(sd):
     """returns (test target args, cleanup list)"""
     created = []
     args = []
-    if os.path.basename(sd).startswith("C20"):
+    if in_bindings(sd):
         # the bindings crate only builds a cdylib/staticlib: the demo is an in-crate test module
         name = "demo_" + re.sub(r"\W", "_", os.path.basename(sd).lower())
         dst = os.path.join(WT, "bindings", "C", "src", name + ".rs")
@@ -75,7 +80,7 @@ def run_demo(sd):
             ok = False
     for c in created:
         os.remove(c)
-    if os.path.basename(sd).startswith("C20"):
+    if in_bindings(sd):
         # drop the `mod demo_...;` line appended to lib.rs, keep an applied patch
         lib = os.path.join(WT, "bindings", "C", "src", "lib.rs")
         txt = open(lib).read()
